@@ -11,6 +11,10 @@ CLAIMED = {
             "reals for floats; shapes <= 5x4x3; wall conditions imposed on inputs; seeded rational materials for full tensors and Bloch+lossy", "4/C02"),
 }
 
+CLAIMED["C14"] = ("concolic execution (pysym+z3) of core/switch.py with all schedule parameters symbolic; jaxpr->SMT of gated injection/recording",
+                  "bounded SMT verification: for all 128 None-patterns and all real-valued schedule parameters z3 shows the on/off decision, on-list and index map equal the documented window rule (T <= bound); symbolic fields/detector states show inactive steps add/record nothing and active steps write exactly row idx[t]",
+                  "reals for floats (edge ties decided by exact arithmetic); T <= 6 quick / 12 thorough; fixed lists of length <= 3", "4/C14")
+
 NOT_APPLICABLE = {
     "C12": "numerical accuracy bound (1e-6 residual energy after >=1e3 steps on >=40^3 cells in floating point); no algebraic identity, far beyond any bounded real-arithmetic encoding",
     "C13": "1e-3 power-ratio bound after hundreds of steps (TFSF leakage is small but non-zero by design); not an identity, out of reach for bounded real arithmetic",
